@@ -357,6 +357,16 @@ static err_t chRead(size_t* read, void* buf, size_t count, void* file)
 	file_st* f = (file_st*)file;
 	if (f->i >= 4) return ERR_FILE_READ;
 	if (!g_msgs[f->i].valid) return ERR_FILE_NOT_FOUND;
+	/* every second case: a 512-octet read (the block-wise collection of M2 / M3 in the BSTS drivers) is delivered in pieces of at
+	   most 100 octets, reporting ERR_OK while more of the message remains (defs.h, read_i: "possibly fewer than count octets
+	   ... waiting for data in the channel").  The fixed-size messages are read by the drivers with ONE read whose delivered
+	   length is not looked at, so short reads are not applied to them (observation in DESIGN.md) */
+	if (g_case && (g_case->id / 2) % 2 && count >= 512 && g_msgs[f->i].len - f->offset > 100)
+	{
+		memcpy(buf, g_msgs[f->i].buf + f->offset, *read = 100);
+		f->offset += 100;
+		return ERR_OK;
+	}
 	if (count + f->offset > g_msgs[f->i].len)
 	{
 		memcpy(buf, g_msgs[f->i].buf + f->offset, *read = g_msgs[f->i].len - f->offset);
